@@ -62,6 +62,7 @@ fn order_stress() -> Vec<Query> {
     let texts = [
         "$[*]['a','b']", "$[*][0,1]", "$..[0,1]", "$..['a','b']", "$[0,0]", "$[*,*]", "$[::-1,0]", "$..[::-1]", "$..[::-2]", "$[*][::-1]", "$..[*]", "$..*", "$[*][*]", "$[*]..[0]", "$..[?@.a]",
         "$[?@.a, ?@.b]", "$[*][?@>0]", "$..[1:,0]", "$[1:,:1]", "$.*.*", "$..a..b", "$..[*]..[0]", "$['a','a']", "$[0:3,2:5]", "$..[-1,0]", "$[*]..a", "$..[?@[0]]", "$[::2,1::2]", "$..[*,0]", "$[*]['b','a']",
+        "$[?search('abc', @)]", "$[?match('a', @)]", "$..[?match('ab', @)]", "$[?search($[3], @)]", "$[?match('x', @.a) || search('abc', @)]", "$[?length(@) == length('ab')]", "$[?$[0] == '']", "$[?$[1] == 'a' || @ == 3]", "$[?count($[*]) > 20]", "$[?value($[0]) == '' && @ == null]",
         "$[0,1,2]", "$['c','a','b']", "$[0,1,2,3]", "$[0,1,1]", "$[*,0,1]", "$..[0,1,2]", "$[2,0,1,0]", "$['b','a','c','a']", "$[1:,0,::-1]", "$[*]..a", "$[0:3]..[0]", "$[2,0]..[0]", "$..a..b", "$[*]..[0]",
         "$..a", "$..b", "$..['a']", "$..[0]", "$..[-1]", "$.a..a", "$..a.a", "$..*..*", "$[*,0]", "$[0,*]",
     ];
@@ -196,7 +197,8 @@ pub fn run(ctx: &Ctx, order: bool) -> Result<Evidence, String> {
                 acc.count("h1_noncanonical_orders_accepted", st.noncanonical_accepted as u64);
                 match r {
                     Ok(()) => {
-                        if st.known_union_segments > 0 && verdict == Verdict::Held {
+                        if st.known_union_segments > 0 && (verdict == Verdict::Held || (order_failed && matches!(verdict, Verdict::Violated(_)))) {
+                            // every deviation from node-major order is the armed union finding
                             verdict = Verdict::Known(armed.id_of("union"));
                         }
                         if order_failed && matches!(verdict, Verdict::Violated(_)) && st.known_union_segments == 0 {
